@@ -57,6 +57,8 @@ pub enum TypeErrorEnum {
     UnknownStructField(String, String),
     /// The struct constructor is missing the specified field.
     MissingStructField(String, String),
+    /// The struct constructor or struct pattern specifies the same field more than once.
+    DuplicateStructField(String, String),
     /// No enum declaration with the specified name exists.
     UnknownEnum(String, String),
     /// The enum exists, but no variant declaration with the specified name was found.
@@ -146,6 +148,9 @@ impl std::fmt::Display for TypeErrorEnum {
             ),
             TypeErrorEnum::MissingStructField(struct_name, struct_field) => f.write_fmt(
                 format_args!("Field '{struct_field}' is missing for struct '{struct_name}'"),
+            ),
+            TypeErrorEnum::DuplicateStructField(struct_name, struct_field) => f.write_fmt(
+                format_args!("Field '{struct_field}' is specified more than once for struct '{struct_name}'"),
             ),
             TypeErrorEnum::UnknownEnum(enum_name, enum_variant) => {
                 f.write_fmt(format_args!("Unknown enum '{enum_name}::{enum_variant}'"))
@@ -1621,15 +1626,22 @@ impl UntypedExpr {
                             errors.push(Some(TypeError::new(e, meta)));
                         }
                     }
-                    if struct_def.len() > fields.len() {
-                        for expected_field_name in struct_def.keys() {
-                            if !fields.iter().any(|(f, _)| f == expected_field_name) {
-                                let e = TypeErrorEnum::MissingStructField(
-                                    name.clone(),
-                                    expected_field_name.to_string(),
-                                );
-                                errors.push(Some(TypeError::new(e, meta)));
-                            }
+                    for (i, (field_name, _)) in fields.iter().enumerate() {
+                        if fields[..i].iter().any(|(f, _)| f == field_name) {
+                            let e = TypeErrorEnum::DuplicateStructField(
+                                name.clone(),
+                                field_name.clone(),
+                            );
+                            errors.push(Some(TypeError::new(e, meta)));
+                        }
+                    }
+                    for expected_field_name in struct_def.keys() {
+                        if !fields.iter().any(|(f, _)| f == expected_field_name) {
+                            let e = TypeErrorEnum::MissingStructField(
+                                name.clone(),
+                                expected_field_name.to_string(),
+                            );
+                            errors.push(Some(TypeError::new(e, meta)));
                         }
                     }
                     if errors.is_empty() {
@@ -1809,7 +1821,16 @@ impl UntypedPattern {
                             errors.push(Some(TypeError::new(e, meta)));
                         }
                     }
-                    if !ignore_remaining_fields && struct_def.len() > fields.len() {
+                    for (i, (field_name, _)) in fields.iter().enumerate() {
+                        if fields[..i].iter().any(|(f, _)| f == field_name) {
+                            let e = TypeErrorEnum::DuplicateStructField(
+                                struct_name.clone(),
+                                field_name.clone(),
+                            );
+                            errors.push(Some(TypeError::new(e, meta)));
+                        }
+                    }
+                    if !ignore_remaining_fields {
                         for expected_field_name in struct_def.keys() {
                             if !fields.iter().any(|(f, _)| f == expected_field_name) {
                                 let e = TypeErrorEnum::MissingStructField(
